@@ -660,6 +660,66 @@ class StmtMixin:
                 out.append(Outcome("normal", s_exit))
         return out
 
+    def st_AsyncFor(self, s, st):
+        """`async for x in it: body`  =  repeatedly `x = await it.__anext__()` (a suspension point: other tasks run, the shared state is
+        havocked under the rely) until that raises StopAsyncIteration; any other exception propagates (language semantics)"""
+        if s.orelse:
+            raise Untranslatable("async for-else")
+        k = self.next_loop(s)
+        inv = self.loop_invariant(k)
+        anchor = f"loop{k}"
+        out = []
+        for r0 in self.eval(s.iter, st):
+            if r0.exc is not None:
+                out.append(Outcome("raise", r0.st, r0.exc))
+                continue
+            entry, it = r0.st, r0.val
+            for (name, f) in inv(self.loop_ctx(entry, entry, {"iter": it})):
+                self.oblige(entry, "inv-init", name, f, anchor)
+
+            def prelude(p, it=it):
+                outs = []
+                for r in self.suspend(p, it, "async-for-next"):
+                    if r.exc is None:
+                        outs.extend(self.assign(s.target, SV(r.val.t, ANY), r.st))
+                return outs
+            h = self.havoc_loop_state(entry, s.body, extra_names=self.target_names(s.target), prelude=prelude)
+            oc = h.loopvars.get("open_changed", set())
+            self.check_open_segment(entry, oc, anchor, "inv-init", True)
+            h.tags.append(anchor)
+            for (name, f) in inv(self.loop_ctx(entry, h, {"iter": it})):
+                h.assume(f)
+            for r in self.suspend(h, it, "async-for-next"):
+                if r.exc is not None:
+                    e = r.exc
+                    stop = subcls(r.st.fld("__class__", Val.a(e.t)), con("StopAsyncIteration"))
+                    s_exit, s_raise = r.st.fork(stop, "exit"), r.st.fork(z3.Not(stop), "next-raises")
+                    if self.feasible(s_exit):
+                        self.loop_exit_lemmas(k, anchor, entry, s_exit, {"iter": it})
+                        out.append(Outcome("normal", s_exit))
+                    if self.feasible(s_raise):
+                        out.append(Outcome("raise", s_raise, e))
+                    continue
+                s_body = r.st
+                s_body.tags.append("iter")
+                for o0 in self.assign(s.target, SV(r.val.t, ANY), s_body):
+                    if o0.kind != "normal":
+                        out.append(o0)
+                        continue
+                    if self.spec is not None and hasattr(self.spec, "on_loop_body"):
+                        o0.st.ghost = dict(o0.st.ghost)
+                        self.spec.on_loop_body(self, o0.st, k, {"item": SV(r.val.t, ANY)})
+                    for o in self.exec_block(s.body, o0.st):
+                        if o.kind in ("normal", "continue"):
+                            for (name, f) in inv(self.loop_ctx(entry, o.st, {"iter": it})):
+                                self.oblige(o.st, "inv-keep", name, f, anchor)
+                            self.check_open_segment(o.st, oc, anchor, "inv-keep", True)
+                        elif o.kind == "break":
+                            out.append(Outcome("normal", o.st))
+                        else:
+                            out.append(o)
+        return out
+
     def loop_exit_lemmas(self, k, anchor, entry: State, s_exit: State, it: dict):
         """contract-supplied proof steps at a loop exit: each is proved (obligation) and then available"""
         fn = getattr(self.spec, "exit_lemmas", {}).get(k) if self.spec else None
